@@ -2,14 +2,15 @@
    Proved here: the bump and range-operator half, from the TEXT of the clause for every version literal in normal form
    (C15_operator_text), and the text round trip - what str() prints parses back to the very same constraint - for single
    versions, half-lines and bounded ranges (C15_printed_range_roundtrip), wildcard ranges (C15_wildcard_roundtrip), exclusions
-   '!=V' (C15_exclusion_roundtrip) and unions of those printed group by group (C15_union_roundtrip), for bounds in normal form.
+   '!=V' (C15_exclusion_roundtrip), negated wildcards '!=R.*' (C15_negated_wildcard_roundtrip) and unions of those printed group
+   by group (C15_union_roundtrip, C15_union_roundtrip_with_wildcards), for bounds in normal form.
    Left to the correspondence run (str() of every model result equals the implementation's, byte for byte) and the oracle
-   (re-parse and compare on regular probes; reference specifier syntax): negated wildcards '!=R.*', unions with wildcard
-   members, bounds whose text is not the normal form. *)
+   (re-parse and compare on regular probes; reference specifier syntax): bounds whose text is not the normal form, wildcards
+   with an epoch or more than three components, unions that contain an exclusion-shaped pair. *)
 From Coq Require Import List Bool NArith String.
 From PC Require Import Base.Cmp Base.Result Model.Pep440 Spec.Pep440Spec Spec.Specifier Model.VConstraint
      Proofs.VersionFacts Proofs.RangeSpec Proofs.SpecifierAgree Proofs.Bumps Proofs.Compat Proofs.Pep440RoundTrip Proofs.ClauseText Proofs.AnyIff Proofs.ConstraintText
-     Proofs.WildcardText Proofs.WildcardMembership Proofs.ExclusionText Proofs.WildcardPrint Proofs.UnionOfNormal Proofs.UnionText.
+     Proofs.WildcardText Proofs.WildcardMembership Proofs.ExclusionText Proofs.WildcardPrint Proofs.UnionOfNormal Proofs.UnionText Proofs.NegatedWildcard Proofs.MixedUnionText.
 Import ListNotations.
 Open Scope string_scope.
 
@@ -138,3 +139,15 @@ Example C15_union_roundtrip_example :
     normal a = true /\ normal b = true /\ normal c = true /\ vltb a b = true /\ nondeg (RR (Some a) (Some b) true false) = true /\
     is_single_wildcard_range (RR (Some a) (Some b) true false) = false.
 Proof. do 3 eexists. repeat split; vm_compute; reflexivity. Qed.
+
+(* a negated wildcard: printed as '!=R.*', read back as the same two half-lines *)
+Theorem C15_negated_wildcard_roundtrip : forall R, (1 <= List.length R <= 3)%nat ->
+  vc_str (nwild R) = Ok ("!=" ++ rel_text R ++ ".*") /\ parse_single false ("!=" ++ rel_text R ++ ".*") = Ok (nwild R).
+Proof. exact nwild_text_roundtrip. Qed.
+Print Assumptions C15_negated_wildcard_roundtrip.
+(* unions whose members may also be wildcard ranges *)
+Theorem C15_union_roundtrip_with_wildcards : forall l, (2 <= List.length l)%nat -> apart_all l = true -> Forall member_shape l ->
+  vc_str (VUnion l) = Ok (sjoin " || " (map r_str l)) ->
+  exists s, vc_str (VUnion l) = Ok s /\ parse_constraint_text false true s = Ok (VUnion l).
+Proof. exact printed_union_roundtrip_w. Qed.
+Print Assumptions C15_union_roundtrip_with_wildcards.
